@@ -76,7 +76,12 @@ def numeric(tier, seed):
     e1["end"] = "2002/05/02"
     e2 = S("Barley", "Loam", seed=seed + 15, plant_md=(3, 10), year=2001, seasons=2, lead=12)
     e2["end"] = "2002/03/11"
-    scs += [u1, u2, u3, e1, e2]
+    # calendar lengths handed over as numpy scalars (parameters taken from an array / a table row)
+    n1 = S("Maize", "SandyLoam", seed=seed + 16, seasons=2, crop_kw={"MaturityCD": 120, "SenescenceCD": 100, "HIstartCD": 60, "EmergenceCD": 7, "MaxRootingCD": 90})
+    n1["crop"]["_np_kw"] = True
+    n2 = S("Barley", "Loam", seed=seed + 17, off_season=True, lead=9, crop_kw={"MaturityCD": 95.0, "SenescenceCD": 70.0})
+    n2["crop"]["_np_kw"] = True
+    scs += [u1, u2, u3, e1, e2, n1, n2]
     if tier == "thorough":
         for i in range(60):
             crop = rnd.choice([c for c in L.CROPS if L.MATURITY_CD[c] < 250])
